@@ -96,12 +96,31 @@ def run(ctx, chk):
     nn = 0
     # a narrowing cast is accepted only inside parse_inst or a function that only parse_inst calls (the split of the first word), and only
     # if parse_inst, evaluated on witness words whose nibbles are pairwise distinct, yields exactly (word >> 16, word & 0xffff)
+    import re as _re
+
+    def _norm(x):
+        # resolved path without generic arguments (`Parser::<'c, 'd>::parse_inst` and `Parser::<'_, '_>::parse_inst` are one function)
+        prev = None
+        while prev != x:
+            prev, x = x, _re.sub(r"::<[^<>]*>", "", x)
+        return x
     callers = {}
     for p_, fn_ in mir.fns.items():
         for b_ in fn_["blocks"]:
             t_ = b_["t"]
             if t_["t"] == "call" and t_.get("r"):
-                callers.setdefault(mir_name(t_["r"]).split("::")[-1], set()).add(mir_name(p_).split("::")[-1])
+                callers.setdefault(_norm(t_["r"]), set()).add(_norm(p_).split("::{closure")[0])
+    root = [q for q in map(_norm, mir.fns) if q.endswith("binary::parser::Parser::parse_inst")]
+    if len(root) != 1:
+        raise Anchor("Parser::parse_inst not found in the MIR facts: %s" % root)
+    only_from_split = set(root)        # parse_inst and the functions only it (transitively) calls
+    grew = True
+    while grew:
+        grew = False
+        for c_, who_ in callers.items():
+            if c_ not in only_from_split and who_ and who_ <= only_from_split:
+                only_from_split.add(c_)
+                grew = True
     from . import headerx as _hx
     split_ok = all(pb is None for _i, pb, _s in _hx.parse_inst_problems(ctx))
     width = {"u8": 8, "u16": 16, "u32": 32, "u64": 64, "usize": 64, "i8": 8, "i16": 16, "i32": 32, "i64": 64, "isize": 64}
@@ -119,7 +138,7 @@ def run(ctx, chk):
                         continue
                     nn += 1
                     fnm = nm.split("::")[-1]
-                    in_split = (fnm == "parse_inst" or (callers.get(fnm) or set()) <= {"parse_inst"} | {c_ for c_ in callers if (callers.get(c_) or set()) <= {"parse_inst"}})
+                    in_split = _norm(p).split("::{closure")[0] in only_from_split
                     chk.check(R7, in_split and split_ok and s["from"] == "u32" and s["to"] == "u16", "%s:%s->%s" % (fnm, s["from"], s["to"]),
                               "narrowing cast %s -> %s in %s" % (s["from"], s["to"], nm), where(s["span"]), key="C01:narrow:%s:%s->%s" % (fnm, s["from"], s["to"]))
     chk.floor(R7, "narrowing casts audited", nn, 2)
